@@ -35,7 +35,8 @@ type undo struct {
 	mp  *MapV
 	key any
 	had bool
-	kind uint8 // 0 cell, 1 map entry, 2 map nil flag
+	kind uint8 // 0 cell, 1 map entry, 2 map nil flag, 4 lock counter
+	held int   // number of mutexes held when the write happened
 }
 
 type frame struct {
@@ -70,6 +71,11 @@ type Machine struct {
 	mergeLoops bool
 	deadline time.Time
 	inPerAlt bool
+	inHook   bool
+	freshMaps map[*MapV]int
+	locksHeld int
+	logWrites int
+	writeLog  []int
 	liftGuard *Term
 	extern  map[string]externFn
 	varSeq  map[string]int
@@ -78,7 +84,7 @@ type Machine struct {
 }
 
 func (m *Machine) store(p *value, v value) {
-	m.trail = append(m.trail, undo{p: p, old: *p})
+	m.trail = append(m.trail, undo{p: p, old: *p, held: m.locksHeld})
 	*p = v
 	if m.freshOn > 0 {
 		if _, ok := m.fresh[p]; ok {
@@ -106,6 +112,8 @@ func (m *Machine) undoTo(mark int) {
 		case 2:
 			u.mp.nilm = true
 			u.mp.m = nil
+		case 4:
+			m.locksHeld = int(u.old.(int64))
 		}
 	}
 	m.trail = m.trail[:mark]
@@ -614,7 +622,12 @@ func (m *Machine) exec(fr *frame, in ssa.Instruction) {
 		}
 		fr.env[in] = c
 	case *ssa.MakeMap:
-		fr.env[in] = &MapV{m: map[any]value{}}
+		mp := &MapV{m: map[any]value{}}
+		if m.freshOn > 0 && m.freshMaps != nil {
+			m.serial++
+			m.freshMaps[mp] = m.serial
+		}
+		fr.env[in] = mp
 	case *ssa.MakeSlice:
 		n := m.concInt(m.get(fr, in.Len), in, "make len")
 		c := m.concInt(m.get(fr, in.Cap), in, "make cap")
@@ -1097,7 +1110,7 @@ func (m *Machine) mapUpdate(mp *MapV, k, v value, in ssa.Instruction) {
 	}
 	key := m.mapKey(k)
 	old, had := mp.m[key]
-	m.trail = append(m.trail, undo{kind: 1, mp: mp, key: key, old: old, had: had})
+	m.trail = append(m.trail, undo{kind: 1, mp: mp, key: key, old: old, had: had, held: m.locksHeld})
 	if !had {
 		mp.order = append(mp.order, key)
 	}
